@@ -762,7 +762,8 @@ class Processor:
                 data=delete_nc)
 
             # Ensure the reference exists before attempting to delete it
-            if isinstance(node, list) and isinstance(node[0], NodeCoords):
+            if (isinstance(node, list) and len(node) > 0
+                    and isinstance(node[0], NodeCoords)):
                 self._delete_nodes(node)
             elif isinstance(node, NodeCoords):
                 self._delete_nodes([node])
